@@ -497,8 +497,8 @@ func (c *compiler) compile(tok *token) []instruction {
 			}
 			if len(values) > 0 && len(target.Tokens) > 0 {
 				typ := typeFromToken(c, target.Tokens[0])
-				if slices.Contains([]Type{TypeUint8, TypeInt8, TypeUint32, TypeInt32, TypeFloat64}, typ) {
-					res = append(res, instruction{Code: codeCast, A: reg(typ)})
+				if slices.Contains([]Type{TypeUint8, TypeInt8, TypeUint32, TypeInt32, TypeFloat64}, typ) || typ >= nillableMin {
+					res = append(res, instruction{Code: codeCast, A: reg(typ)}) // (var s []T = nil is the nil slice of T)
 				}
 			}
 			res = append(res, instruction{Code: code, A: reg(idx)})
